@@ -82,7 +82,7 @@ func EntropyOfSize(size int) *rapid.Generator[Ent] {
 		shape := rapid.SampledFrom([]string{
 			"uniform", "uniform", "lead-zero-bytes", "lead-zero-bytes", "lead-zero-bits", "lead-one-bits",
 			"trail-zero-bits", "trail-one-bits", "all-zero", "all-one", "single-bit", "indices", "hash-byte", "sparse",
-			"text-like", "repeated-byte",
+			"text-like", "repeated-byte", "dictionary",
 		}).Draw(t, "shape")
 		e := make([]byte, size)
 		uniform := func() {
@@ -127,6 +127,21 @@ func EntropyOfSize(size int) *rapid.Generator[Ent] {
 				"ABCDEFGHIJKLMNOPQRSTUVWXYZabcdefghijklmnopqrstuvwxyz0123456789+/", "abcdefghijklmnopqrstuvwxyz ", " !\"#$%&'()*+,-./0123456789:;<=>?@ABCDEFGHIJKLMNOPQRSTUVWXYZ[\\]^_`abcdefghijklmnopqrstuvwxyz{|}~"}).Draw(t, "alphabet")
 			for i := range e {
 				e[i] = alpha[rapid.IntRange(0, len(alpha)-1).Draw(t, "ch")]
+			}
+		case "dictionary":
+			// a literal from the code under test placed at the head, the tail or anywhere
+			uniform()
+			if len(dictionary) == 0 {
+				shape = "uniform"
+				break
+			}
+			for k := rapid.IntRange(1, 2).Draw(t, "tokens"); k > 0; k-- {
+				tok := dictionary[rapid.IntRange(0, len(dictionary)-1).Draw(t, "tok")]
+				if len(tok) > size {
+					tok = tok[:size]
+				}
+				at := rapid.SampledFrom([]int{0, size - len(tok), rapid.IntRange(0, size-len(tok)).Draw(t, "off")}).Draw(t, "where")
+				copy(e[at:], tok)
 			}
 		case "repeated-byte":
 			b := rapid.Byte().Draw(t, "b")
@@ -211,3 +226,13 @@ func ExtremeIndices(l ref.Lang, n int, longest bool, variant int) []int {
 	}
 	return append(prefix, best)
 }
+
+// dictionary: byte patterns harvested from the literals of the code under test (the fuzzing
+// "dictionary" idea): magic values a comparison in the code may key on.
+var dictionary [][]byte
+
+// SetDictionary installs the harvested byte patterns (called once by the test binary).
+func SetDictionary(d [][]byte) { dictionary = d }
+
+// DictionarySize reports how many patterns are installed.
+func DictionarySize() int { return len(dictionary) }
